@@ -472,7 +472,11 @@ func (m *Module) Run(lines []string) ([]string, error) {
 		go func() {
 			w := bufio.NewWriterSize(m.in, 1<<20)
 			for k := start; k < len(lines); k++ {
-				if _, err := w.WriteString(lines[k] + "\n"); err != nil {
+				l := lines[k]
+				if strings.TrimSpace(l) == "" {
+					l = "nopkg NOP" // (the driver answers every non-empty line with exactly one line; an empty one would never be answered)
+				}
+				if _, err := w.WriteString(l + "\n"); err != nil {
 					done <- err
 					return
 				}
